@@ -26,7 +26,8 @@ PP = "rssl_preprocess"
 
 def run(chk):
     f = chk.facts
-    rule_tile(chk)
+    if not rule_tile_eval(chk):
+        rule_tile(chk)
     # the literal lexers are read as functions of the spelling; the THIR / MIR shape rules are the fallback
     if not rule_int_eval(chk):
         rule_int(chk)
@@ -212,6 +213,96 @@ def rule_positions(chk):
                 return ok
             return c04.Proxy.ob(self, key, ok, why, where, trivial, sample)
     c14.rule_line(Px(chk, [("C14.line", "C10.position"), ("C14.anchor", "C10.anchor/c14")]), I.Interp(chk.facts))
+
+
+TILE_TEXTS = [
+    "int a = 1;\n", "x+=0x1Fu /*c*/ // l\n#if A\n", "float4 v=f(1.5e3f,\"s\");", "a\\\nb", "", "\n", "  \t x", "a<<=b>>c<=d>=e==f!=g&&h||i++ +--j;\n",
+    "#define F(x) x##y\n#include \"f.h\"\n", "/* open\n * block */ident_9 0777 1.0h 2.5L .5f 1e-3 0u 7ul\n", "s.Load(int3(0,0,0)).xyzw;[numthreads(8,8,1)]\r\nvoid f(){}\r\n",
+    "a ? b : c; ~x % y ^ z | w & !q; ::ns::t<u>(1)\n",
+]
+
+
+def rule_tile_eval(chk):
+    """The lexer and the unlexer read as functions of the text: TokenStream::read_to_end is walked by the reader on model
+    texts that use every class of token (words, every operator spelling, literals of every kind, comments, line splices,
+    CR LF, directives, text without a final newline, the empty text), placed at base location 0 and at a later base.
+    The spans must tile the text - each token starts where the previous one ended, the first at the base, the last ends
+    at the end of the text - and unlex of the tokens must give the text back (a line splice loses its backslash, a
+    missing final newline is added). Texts the lexer refuses must be refused at a position inside the text."""
+    import interp as I
+    f = chk.facts
+    tsnew = f.fn("new", PP, self_ty="TokenStream")
+    rte = f.fn("read_to_end", PP, self_ty="TokenStream")
+    smnew = f.fn("new", "rssl_text", self_ty="SourceManager")
+    add = f.fn("add_file", "rssl_text")
+    unlex = f.fn("unlex", PP)
+    if not (tsnew and rte and smnew and add and unlex):
+        return False
+    ip = I.Interp(f, max_depth=30)
+    ip.max_loop = 8192
+    bad_tile = bad_unlex = bad_err = None
+    n = 0
+    for text in TILE_TEXTS:
+        for pre in ("", "first file\n"):
+            what = "%r%s" % (text, " (second file of the source manager)" if pre else "")
+            try:
+                sm = ip.apply(smnew, [])
+                base = 0
+                if pre:
+                    ip.apply(add, [sm, I.Enum("FileName", None, {"0": "first"}), pre])
+                    base = len(pre) + 1
+                ip.apply(add, [sm, I.Enum("FileName", None, {"0": "t"}), text])
+                ts = ip.apply(tsnew, [text, I.Enum("SourceLocation", None, {"0": base})])
+                r = ip.apply(rte, [ts])
+            except I.Unknown as e:
+                if "panicking" in str(e) or "abort" in str(e):
+                    bad_tile = bad_tile or "lexing %s aborts (%s)" % (what, str(e)[:80])
+                    continue
+                if "as_ptr_range" in str(e):
+                    continue        # (the error path compares slice addresses, which the reader does not model: C08.lexer looks at it)
+                chk.note("C10.tile: the lexer is not readable on %s (%s); the shape rules decide" % (what, str(e)[:80]))
+                return False
+            n += 1
+            if not (isinstance(r, I.Enum) and r.variant == "Ok"):
+                e0 = r.fields.get("0") if isinstance(r, I.Enum) else None
+                locv = e0.fields.get("location") if isinstance(e0, I.Enum) else None
+                lv = locv.fields.get("0") if isinstance(locv, I.Enum) else None
+                if not (isinstance(lv, int) and base <= lv <= base + len(text.encode())):
+                    bad_err = bad_err or "lexing %s fails at location %r, which is not inside the text [%d, %d]" % (what, lv, base, base + len(text.encode()))
+                continue
+            toks = r.fields["0"]
+            spans = []
+            for t in toks:
+                d = t.fields["1"].fields
+                spans.append((t.fields["0"].variant, d["start_location"].fields["0"] - base, d["end_location"].fields["0"] - base))
+            size = len(text.encode())
+            pos = 0
+            for k, (kind, a, b) in enumerate(spans):
+                if a != pos or b < a:
+                    bad_tile = bad_tile or "lexing %s: token %d (%s) spans [%d, %d) but the previous token ended at %d: the tokens overlap or leave a gap" % (what, k, kind, a, b, pos)
+                    break
+                pos = b
+            else:
+                if pos != size:
+                    bad_tile = bad_tile or "lexing %s: the tokens end at byte %d of %d" % (what, pos, size)
+            try:
+                u = ip.apply(unlex, [toks, sm])
+            except I.Unknown as e:
+                if "panicking" in str(e) or "abort" in str(e):
+                    bad_unlex = bad_unlex or "unlex of the tokens of %s aborts (%s)" % (what, str(e)[:80])
+                    continue
+                chk.note("C10.tile: unlex is not readable on %s (%s); the shape rules decide" % (what, str(e)[:80]))
+                return False
+            want = text.replace("\\\r\n", "\r\n").replace("\\\n", "\n")
+            if spans and spans[-1][0] == "Endline" and spans[-1][1] == spans[-1][2]:
+                want += "\n"
+            if u != want:
+                bad_unlex = bad_unlex or "unlex of the tokens of %s gives %r, must be %r" % (what, u, want)
+    chk.ob("C10.tile/spans", bad_tile is None, bad_tile or "the token spans tile every model text", where(rte), sample={"texts": len(TILE_TEXTS)})
+    chk.ob("C10.tile/unlex", bad_unlex is None, bad_unlex or "unlex gives every model text back", where(unlex), sample={"texts": len(TILE_TEXTS)})
+    chk.ob("C10.tile/error-position", bad_err is None, bad_err or "lexer errors are located inside the text", where(rte))
+    chk.floor("C10.floor/texts-lexed", n, 20, "model texts lexed", where(rte))
+    return True
 
 
 def rule_tile(chk):
